@@ -538,9 +538,11 @@ def decide(prop, tier, seed):
                 for o in obligations:
                     if o["name"] in f["new"]:
                         o["result"] = "undecided"
-                        o["reason"] = "Verus failure on a float-axiom-dependent obligation without a failing input from the bit-precise search"
+                        o["reason"] = ("Verus failure on an obligation that rests on " + (f["group"].get("needs_input_reason") or "a shape-keyed float axiom")
+                                       + ", without a failing input from the paired bit-precise / native check")
                 undecided.append({"obligation": f["new"][0], "reason":
-                                  "float-axiom-dependent obligation failed in Verus but no failing input was found by Kani"})
+                                  "obligation resting on " + (f["group"].get("needs_input_reason") or "a shape-keyed float axiom")
+                                  + " failed in Verus but the paired check found no failing input"})
                 continue
         if found_input and set(f["new"]) <= reported_with_input:
             continue        # the same clauses were already reported, with a failing input, by another engine of this check
